@@ -12,13 +12,13 @@ from vlib.static import serve_static, record_opens
 ID = 'C16'
 LEVEL = 'exploration'
 RULE = ('a real tree is built per run: base/{top.txt, root/{f.txt, .hidden, "we ird.txt", "a\\\\b.txt", sub/{g.txt, deep/h.txt}}, root2/decoy.txt, '
-        'rootx/secret.txt, root_backup/secret.txt, other/secret.txt, case-variant twins Root/ and ROOT/, a second site site2/ with the same relative layout}. case = (root spelling: absolute, with trailing separator(s), relative to the '
+        'rootx/secret.txt, root_backup/secret.txt, other/secret.txt, case-variant twins Root/ and ROOT/, a second site site2/ with the same relative layout, a mirror tree backup/<absolute path of the root>/ beside the root and one inside it}. case = (root spelling: absolute, with trailing separator(s), relative to the '
         'working directory (which alternates between base and base/site2 from request to request), with a dot-dot detour, the nested root root/sub; file name = prefix in {"", "/", "\\\\", "//", absolute base, absolute '
         'root, "/etc/"} + 1-6 segments from {file and directory names of the tree, ".", "..", "", "...", sibling directory names, "passwd", NUL '
         'segment} joined by separators from {"/", "\\\\", "//", "/./", "\\\\\\\\"} + optional trailing separator), served by static_file from a handler '
         'of the default application. Oracle: independent string normalisation of the location (POSIX reading and backslash-as-separator reading); '
         'status 200 => the body equals the content of the file at a normalised location inside the root; any other outcome is 403 or 404; and the '
-        'audit-hook log of every open() during the request contains no path of the tree (or /etc/passwd) outside the root. Non-trivial = the name '
+        'audit-hook log of every open() during the request contains no path of the tree (or /etc/passwd) outside the root. Plus two concurrent static_file calls (one legitimate, one leaving the root) under every single-preemption schedule. Non-trivial = the name '
         'has a dot-dot segment, a backslash, an absolute prefix or a sibling-directory segment; distinct by (root spelling, name).')
 ASSUMPTIONS = ['POSIX file system, no symbolic links in the tree', 'observation of file opens is the interpreter audit event "open" (covers open, io.open, os.open)',
                'the property is one-directional (what may be served); how many names were served is reported as a stratum, not required']
@@ -35,7 +35,7 @@ SEGS = ['Root', 'ROOT', 'SUB', 'Deep', 'F.TXT', 'f.txt', 'sub', 'g.txt', 'deep',
         'other', 'decoy.txt', 'secret.txt', 'top.txt', 'passwd', 'etc', 'a', 'b.txt', '\0', 'nofile']
 SEPS = ['/', '/', '/', '\\', '\\', '//', '/./', '\\\\', '/\\', '\\/']
 ROOTS = ['abs', 'abs/', 'abs//', 'rel', './rel', 'rel/', 'detour', 'nested', 'nested/', 'abs/.', 'rel\\']
-PREFIXES = ['', '', '', '/', '\\', '//', '../', '..\\', '<base>/', '<root>/', '/etc/', './', '<base>', '/../']
+PREFIXES = ['', '', '', '/', '\\', '//', '../', '..\\', '<base>/', '<root>/', '/etc/', './', '<base>', '/../', '../backup<root>/', '../../backup<root>/', 'mirror<root>/', '../backup<base>/']
 
 _STATE = {}
 
@@ -48,6 +48,14 @@ def tree():
             os.makedirs(os.path.dirname(p), exist_ok=True)
             with open(p, 'wb') as f:
                 f.write(data)
+        # a backup / mirror tree that re-creates the absolute path of the root below another directory
+        for mirror in ('backup', 'root/mirror'):
+            p = base + '/' + mirror + base + '/root/secret.txt'
+            os.makedirs(os.path.dirname(p), exist_ok=True)
+            with open(p, 'wb') as f:
+                f.write(b'MIRROR-DECOY' if mirror == 'backup' else b'mirror inside the root')
+            with open(base + '/' + mirror + base + '/root/f.txt', 'wb') as f:
+                f.write(b'MIRROR-F-DECOY' if mirror == 'backup' else b'mirror f inside the root')
         _STATE['base'] = base
         _STATE['cwd'] = os.getcwd()
         os.chdir(base)
@@ -169,11 +177,74 @@ def check_case(ctx, case):
         ctx.nontrivial(case['root'] + '|' + case['name'], sample=case)
 
 
+def check_threaded(ctx, case):
+    """Two static_file calls on two threads (a legitimate name and one that leaves the root), every single-preemption schedule:
+    each answer must be the one the same request gets alone."""
+    from vlib.sched import Scheduler, BIG
+    from checks.c08_threads import relevant
+    import ombott
+    base = tree()
+    os.chdir(base)
+    R_ = base + '/root'
+    app = ombott.app
+    names = {}
+
+    def handler():
+        import threading
+        return ombott.static_file(names[threading.get_ident()], R_)
+    app.route('/__verif_static_thr', callback=handler, overwrite=True)
+    from vlib.wsgi import make_environ, call_app
+    good, evil = case['good'], case['evil']
+
+    def run(order, schedule):
+        res = {}
+
+        def mk(tag, name):
+            def fn():
+                import threading
+                names[threading.get_ident()] = name
+                res[tag] = call_app(app, make_environ('GET', '/__verif_static_thr'))
+            return fn
+        fns = [mk('good', good), mk('evil', evil)]
+        if order:
+            fns.reverse()
+        with record_opens() as opens:
+            sc = Scheduler(fns, schedule, relevant)
+            sc.run()
+            opened = [p for p in opens if isinstance(p, str)]
+        for e in sc.errors:
+            if e is not None:
+                raise CheckFailure(f'thread raised {fmt_exc(e)} under schedule {schedule}')
+        g, e = res['good'], res['evil']
+        with open(R_ + '/' + good, 'rb') as f:
+            want = f.read()
+        if g.code != 200 or g.body != want:
+            raise CheckFailure(f'threaded: static_file({good!r}) answered {g.status!r} {g.body[:40]!r} while another thread asked for {evil!r}; alone it serves {want[:40]!r}; '
+                               f'order={order} schedule {schedule}')
+        if e.code not in (403, 404):
+            raise CheckFailure(f'threaded: static_file({evil!r}) answered {e.status!r} {e.body[:40]!r}; order={order} schedule {schedule}')
+        for p in opened:
+            rp = os.path.realpath(p)
+            if rp.startswith(base + '/') and not inside(rp, R_) and os.path.isfile(rp):
+                raise CheckFailure(f'threaded: {rp!r} outside the root was opened; order={order} schedule {schedule}')
+        ctx.evals += 1
+        ctx.nontrivial('thr:' + repr((good, evil, order, schedule)))
+        return sc.yields
+    for order in (0, 1):
+        y0 = run(order, [[0, BIG]])[0]
+        for k in range(0, y0 + 1):
+            run(order, [[0, k], [1, BIG], [0, BIG]])
+        ctx.count('threaded_single_preemption_schedules', y0 + 1)
+
+
 def run(ctx):
     try:
         for name, case in load_corpus(ID):
             ctx.guarded(check_case, case)
             ctx.count('corpus')
+        if ctx.shard == 0:
+            for good, evil in (('f.txt', '../top.txt'), ('sub/g.txt', '../root2/decoy.txt')):
+                ctx.guarded(check_threaded, {'threaded': True, 'good': good, 'evil': evil})
         if ctx.shard == 0:
             # grid: every root spelling x the classic escapes
             base = tree()
@@ -183,6 +254,8 @@ def run(ctx):
                        '../root/f.txt', './../root2/decoy.txt', '..', '../', '../root2', 'f.txt/../../top.txt', '\\..\\top.txt', '/../top.txt', '..\\..\\top.txt',
                        '..\\other\\secret.txt', '../secret.txt', '..\\secret.txt', 'sub/..\\..\\secret.txt', 'f.txt', 'sub/g.txt', 'sub\\g.txt', 'a\\b.txt', '.hidden',
                        'g.txt', '../f.txt', '..\\f.txt', 'deep/h.txt', '../g.txt']
+            escapes += ['../backup<root>/secret.txt', '../backup<root>/f.txt', '../../backup<root>/secret.txt', '../backup/<root>/secret.txt', 'mirror<root>/secret.txt',
+                        '../backup<root>/../root/secret.txt']
             escapes += ['../Root/f.txt', '../ROOT/secret.txt', '..\\Root\\f.txt', 'SUB/g.txt', '../root/../Root/f.txt', '../../' + base.strip('/').upper() + '/top.txt']
             for rs in ROOTS:
                 for e in escapes:
@@ -196,6 +269,11 @@ def run(ctx):
 
 
 def replay(ctx, case):
+    if 'threaded' in case:
+        try:
+            return check_threaded(ctx, case)
+        finally:
+            cleanup()
     try:
         # a request may depend on an earlier one served from another working directory: prime with both
         for cwd in ('site2', ''):
